@@ -74,12 +74,13 @@ def register_tcp_client(R):
         params={"packet": "obj", "timeout": "opt[xreal]"},
         requires=[("ghost: no block has run yet", "not ghost.block_raised")],
         ensures=[("packet-bytes-written-once-in-order", f"ghost.WIRE == old(ghost.WIRE) + flat({chunks})", "C04 C12"),
-                 ("send-lock-released", f"not {SL}", "C12")],
+                 ("send-lock-released", f"not {SL}", "C12"), ("total-blocking-within-the-budget-of-the-whole-call (lock wait included)", f"implies({finite}, {W} <= fin({T}))", "C11")],
         raises={"BaseException": [("send-lock-released-on-every-exit", f"not {SL}", "C12"),
-                                  ("at-most-a-prefix-of-the-packet-was-written", "len(ghost.WIRE) >= len(old(ghost.WIRE))", "C04")]},
+                                  ("at-most-a-prefix-of-the-packet-was-written", "len(ghost.WIRE) >= len(old(ghost.WIRE))", "C04")],
+                "OSError": [("total-blocking-within-the-budget-of-the-whole-call (lock wait included)", f"implies({finite}, {W} <= fin({T}))", "C11")]},
         modifies=["ghost.WIRE", "ghost.now", "ghost.waited", "ghost.unbounded_waits", "ghost.block_raised", SL,
                   "self.__send_lock._ForkSafeLock__unsafe_lock", "self.__send_lock._ForkSafeLock__pid"],
-        env={"call_hints": {"send": [
+        env={"exc_universe": ["ssl.SSLEOFError", "ssl.SSLZeroReturnError", "ssl.SSLError"], "call_hints": {"send": [
             ("the-write-happens-while-this-thread-holds-the-send-lock", "self.__send_lock._ForkSafeLock__unsafe_lock.held_by_me"),
             ("the-endpoint-gets-only-what-the-lock-wait-left-of-the-budget",
              f"implies({finite}, not isinf(arg('timeout')) and (pre(ghost.waited) - old(ghost.waited)) + fin(arg('timeout')) <= fin({T}))"),
@@ -107,7 +108,7 @@ def register_tcp_client(R):
                   ("deserializer-needs-input", "fn('S_kind', 'int', b'') == 0"),
                   ("latch-mirrors-the-transport", f"{EOFL} == ghost.EOF")],
         ghost={"U0": U},
-        ensures=[("receive-lock-released", f"not {RL}", "C12 C11"),
+        ensures=[("receive-lock-released", f"not {RL}", "C12 C11"), ("total-blocking-within-the-budget-of-the-whole-call (lock wait included)", f"implies({finite}, {W} <= fin({T}))", "C11"),
                  ("the-next-packet-of-the-pending-bytes", f"{p['done']} and result == {p['pkt']}", "C03"),
                  ("remainder-kept", f"{U} == {p['rest']}", "C03 C10"),
                  ("a-buffered-packet-is-returned-without-reading", f"implies(not ({p0['need']}), ghost.recv_calls == old(ghost.recv_calls) and ghost.IN == old(ghost.IN))", "C03")],
@@ -118,14 +119,16 @@ def register_tcp_client(R):
                 ("end-of-stream-is-never-reported-while-a-complete-packet-is-buffered", p["need"], "C03"),
                 ("nothing-lost", f"{U} == {X}", "C03 C10"),
                 ("receive-lock-released", f"not {RL}", "C12 C11")],
+            "ssl.SSLEOFError": [("an-abrupt-end-of-the-TLS-stream-is-reported-as-ConnectionAbortedError-like-any-end-of-stream", "False", "C03 C09")],
             "StreamProtocolParseError": [("parser-error-on-the-pending-bytes", p["err"], "C03 C06"), ("remainder-kept", f"{U} == {p['rest']}", "C03 C10"),
                                          ("receive-lock-released", f"not {RL}", "C12 C11")],
             "BaseException": [("receive-lock-released-on-every-exit", f"not {RL}", "C12 C11")],
+            "OSError": [("total-blocking-within-the-budget-of-the-whole-call (lock wait included)", f"implies({finite}, {W} <= fin({T}))", "C11")],
         },
         modifies=["ghost.IN", "ghost.recv_calls", "ghost.EOF", "ghost.io_errors", "ghost.now", "ghost.waited", "ghost.unbounded_waits", "ghost.block_raised", RL,
                   "self.__receive_lock._ForkSafeLock__unsafe_lock", "self.__receive_lock._ForkSafeLock__pid", EOFL,
                   f"{CONS}._StreamDataConsumer__buffer", f"{CONS}._StreamDataConsumer__consumer"],
-        env={"call_hints": {"receive": [
+        env={"exc_universe": ["ssl.SSLEOFError", "ssl.SSLZeroReturnError", "ssl.SSLError"], "call_hints": {"receive": [
             ("the-read-happens-while-this-thread-holds-the-receive-lock", "self.__receive_lock._ForkSafeLock__unsafe_lock.held_by_me"),
             ("the-endpoint-gets-only-what-the-lock-wait-left-of-the-budget",
              f"implies({finite}, not isinf(arg('timeout')) and (pre(ghost.waited) - old(ghost.waited)) + fin(arg('timeout')) <= fin({T}))"),
@@ -185,8 +188,8 @@ def register_udp_client(R):
         params={"packet": "obj", "timeout": "opt[xreal]"},
         requires=[("ghost: no block has run yet", "not ghost.block_raised")],
         ensures=[("exactly-one-datagram-carrying-the-serialized-packet", f"ghost.DG_OUT == old(ghost.DG_OUT) + unit({dg})", "C05 C12"),
-                 ("send-lock-released", f"not {SL}", "C12")],
-        raises={"BaseException": [("send-lock-released-on-every-exit", f"not {SL}", "C12")]},
+                 ("send-lock-released", f"not {SL}", "C12"), ("total-blocking-within-the-budget-of-the-whole-call (lock wait included)", f"implies({finite}, (ghost.waited - old(ghost.waited)) <= fin({T}))", "C11")],
+        raises={"BaseException": [("send-lock-released-on-every-exit", f"not {SL}", "C12")], "OSError": [("total-blocking-within-the-budget-of-the-whole-call (lock wait included)", f"implies({finite}, (ghost.waited - old(ghost.waited)) <= fin({T}))", "C11")]},
         modifies=common_mod + ["ghost.DG_OUT", SL, "self.__send_lock._ForkSafeLock__unsafe_lock", "self.__send_lock._ForkSafeLock__pid"],
         env={"call_hints": {"send": [("the-datagram-is-sent-while-this-thread-holds-the-send-lock", SL), budget]}},
         tags="C12 C11 C05",
@@ -196,9 +199,9 @@ def register_udp_client(R):
         params={"timeout": "opt[xreal]"}, result="obj",
         requires=[("ghost: no block has run yet", "not ghost.block_raised")],
         ensures=[("exactly-one-datagram-consumed", "len(ghost.DG_IN) == len(old(ghost.DG_IN)) + 1", "C05"),
-                 ("receive-lock-released", f"not {RL}", "C12 C11")],
+                 ("receive-lock-released", f"not {RL}", "C12 C11"), ("total-blocking-within-the-budget-of-the-whole-call (lock wait included)", f"implies({finite}, (ghost.waited - old(ghost.waited)) <= fin({T}))", "C11")],
         raises={"DatagramProtocolParseError": [("exactly-one-datagram-consumed", "len(ghost.DG_IN) == len(old(ghost.DG_IN)) + 1", "C05 C06"), ("receive-lock-released", f"not {RL}", "C12")],
-                "BaseException": [("receive-lock-released-on-every-exit", f"not {RL}", "C12 C11")]},
+                "BaseException": [("receive-lock-released-on-every-exit", f"not {RL}", "C12 C11")], "OSError": [("total-blocking-within-the-budget-of-the-whole-call (lock wait included)", f"implies({finite}, (ghost.waited - old(ghost.waited)) <= fin({T}))", "C11")]},
         modifies=common_mod + ["ghost.DG_IN", RL, "self.__receive_lock._ForkSafeLock__unsafe_lock", "self.__receive_lock._ForkSafeLock__pid"],
         env={"call_hints": {"receive": [("the-datagram-is-read-while-this-thread-holds-the-receive-lock", RL), budget]}},
         tags="C12 C11 C05",
